@@ -35,9 +35,15 @@ pub fn families() -> Vec<Family> {
 
 pub fn conv_case<T: Sc>(rng: &mut Rng, idx: usize) -> (FitCase<T>, Vec<T>, DMatrix<T>, f64, &'static str) {
     let fams = families();
-    let fam = &fams[idx % fams.len()];
+    let mut big = Family { name: "3decays+offset-huge", fns: fams[4].fns.clone(), ranges: fams[4].ranges.clone(), xmax: fams[4].xmax, nmin: 0, nmax: 0 };
+    big.fns.push((Kind::One, vec![]));
+    let fam = if idx % 240 == 112 { &big } else { &fams[idx % fams.len()] };
     let p = fam.ranges.len();
-    let n = rng.range(fam.nmin, fam.nmax);
+    let n = if idx % 240 == 112 { 1 } else { rng.range(fam.nmin, fam.nmax) };
+    // one case per 240: a quarter of a million samples (single precision, see `stream`): anything that
+    // scales a tolerance or threshold with the NUMBER of samples shows here
+    let huge = idx % 240 == 112;
+    let n = if huge { 1usize << 18 } else { n };
     let recipe = Recipe {
         names: NAMES[..p].iter().map(|s| s.to_string()).collect(),
         fns: fam.fns.iter().map(|(k, ps)| FnSpec { kind: *k, params: ps.clone() }).collect(),
@@ -231,7 +237,7 @@ pub fn stream(out: &mut Out, seed: u64, thorough: bool) {
     let mut rng = Rng::new(seed ^ 0xC05);
     let n = if thorough { 10000 } else { 240 };
     for i in 0..n {
-        if rng.chance(0.125) || (i % 9 == 8 && i % 2 == 0) {
+        if rng.chance(0.125) || (i % 9 == 8 && i % 2 == 0) || i % 240 == 112 {
             emit_conv_case::<f32>(out, i, &mut rng);
         } else {
             emit_conv_case::<f64>(out, i, &mut rng);
